@@ -50,6 +50,8 @@ def sq_close(scale, q2, o):
 def run_mlr(ctx, args, recs):
     inp = dkvp(recs, ifs=";", ips=":")
     st, out, err = mlr_run(ctx, IFLAGS + args, inp, timeout=30)
+    if st == "hang":            # a loaded machine is not a hang: confirm with a long timeout before calling it one
+        st, out, err = mlr_run(ctx, IFLAGS + args, inp, timeout=300)
     cls = classify_run(st, err)
     if cls != "ok":
         return cls, None, err.decode("utf-8", "replace")[-600:]
@@ -748,6 +750,11 @@ def gen_value(rng, profile):
         if r < 0.8:
             return "%s%d.%s" % (rng.choice(["", "-"]), rng.randint(0, 40), rng.choice(["5", "25", "75", "125"]))
         return str(rng.choice([2 ** 53 + 1, 2 ** 60 + 7, -(2 ** 60) - 3]) + rng.randint(0, 2))
+    if profile == "midints":        # large next to their spread, sums of squares still exact in int64: the exact-variance path (fix: var of ints)
+        base = rng.choice([100000000, 123456789, -150000000, 99999999])
+        return "" if r < 0.06 else str(base + rng.randint(0, 12))
+    if profile == "wideints":       # wide spread: n (n-1) var exceeds 2^63 already for small groups while the sums of squares fit int64
+        return "" if r < 0.06 else str(rng.randint(-1200000000, 1200000000))
     if profile == "text":
         if r < 0.35:
             return rng.choice(WORDS)
@@ -795,9 +802,13 @@ def gen_case(rng, tier):
     if rng.random() < EXT_SHARE:           # ---- extension block (Verbs3.v): shares the case budget
         return gen_case_ext(rng, tier, nrec, gvals, gs)
     if kind.startswith("stats1"):
-        profile = rng.choice(["small", "small", "ints", "text"])
-        pool = {"small": PLAIN + MOMENT, "ints": PLAIN, "text": ["count", "mode", "antimode", "distinct_count", "null_count", "minlen", "maxlen", "min", "max", "sum"]}[profile]
-        accs = rng.sample(pool, rng.randint(1, min(5, len(pool))))
+        profile = rng.choice(["small", "small", "small", "ints", "text", "text", "midints", "wideints"])
+        BIGVAR = ["var", "stddev", "meaneb", "mean", "sum", "count", "min", "max", "var", "stddev"]
+        pool = {"small": PLAIN + MOMENT, "ints": PLAIN, "midints": BIGVAR, "wideints": BIGVAR,
+                "text": ["count", "mode", "antimode", "distinct_count", "null_count", "minlen", "maxlen", "min", "max", "sum"]}[profile]
+        accs = rng.sample(sorted(set(pool)), rng.randint(1, min(5, len(set(pool)))))
+        if profile in ("midints", "wideints") and not set(accs) & {"var", "stddev", "meaneb"}:
+            accs.append(rng.choice(["var", "stddev", "meaneb"]))
         interp = False
         if kind == "stats1p":
             profile = rng.choice(["small", "ints"])
@@ -838,9 +849,12 @@ def gen_case(rng, tier):
             s["profile"] = "nums"
     elif kind == "merge-fields":
         mode = rng.choice(["f", "r", "c"])
-        prof = rng.choice(["small", "small", "ints", "text"])
-        pool = {"small": PLAIN + MOMENT, "ints": PLAIN, "text": ["count", "mode", "antimode", "distinct_count", "null_count", "minlen", "maxlen", "min", "max", "sum"]}[prof]
+        prof = rng.choice(["small", "small", "small", "ints", "text", "text", "midints", "wideints"])
+        pool = {"small": PLAIN + MOMENT, "ints": PLAIN, "midints": ["var", "stddev", "meaneb", "mean", "sum", "count"], "wideints": ["var", "stddev", "meaneb", "mean", "sum", "count"],
+                "text": ["count", "mode", "antimode", "distinct_count", "null_count", "minlen", "maxlen", "min", "max", "sum"]}[prof]
         accs = rng.sample(pool, rng.randint(1, 4))
+        if prof in ("midints", "wideints") and not set(accs) & {"var", "stddev", "meaneb"}:
+            accs.append(rng.choice(["var", "stddev", "meaneb"]))
         if rng.random() < 0.25 and prof != "text":
             accs = list(dict.fromkeys(accs + [rng.choice(["median", "p25", "p90"])]))
         s = {"verb": "merge-fields", "mode": mode, "accs": accs, "k": rng.random() < 0.4, "interp": False, "o": rng.choice(["out", "ab", "x"]),
@@ -1370,6 +1384,10 @@ def dsl_cases(ctx, n):
         if rng.random() < 0.15:
             xs = [x for x in xs if classify(x)[0] == "int"] or ["7"]
         f = rng.choice(DSL_ACC + ["median", "percentile", "percentile", "percentiles", "percentiles_map", "sort_collection"])
+        if rng.random() < 0.12:          # ints large next to their spread / widely spread: the exact-variance path of the finalizer
+            prof = rng.choice(["midints", "wideints"])
+            xs = [x for x in (gen_value(rng, prof) for _ in range(rng.choice([2, 3, 4, 5, 6, 20]))) if x != ""] or ["100000000", "100000003"]
+            f = rng.choice(["var", "stddev", "meaneb", "mean", "sum"])
         il = rng.random() < 0.4
         half = rng.randint(0, 200)
         if f in ("percentile", "percentiles") and rng.random() < 0.2:
@@ -1504,7 +1522,7 @@ def oracle_expect_pctl(s):
 def probe_known(ctx):
     """witnesses of the defects this check has found on the unchanged tree (classes listed in c10.findings.md); each is re-probed on every run"""
     # 1. interpolated percentile outside 0..100 indexes past the end of the array
-    st, out, err = mlr_run(ctx, ["-n", "put", 'end{print percentiles([1,2,3,4,5],[200],{"interpolate_linearly":true})}'], b"", timeout=30)
+    st, out, err = mlr_run(ctx, ["-n", "put", 'end{print percentiles([1,2,3,4,5],[200],{"interpolate_linearly":true})}'], b"", timeout=300)
     cls = classify_run(st, err)
     ctx.count(("probe", "pctl200"))
     ctx.cov.setdefault("probes", {})["interpolated_percentile_p200"] = cls
@@ -1586,6 +1604,40 @@ def probe_known(ctx):
     if racy is not None:
         ctx.violation({"regression_of": "fix 319ac5667 (step slwin kept already-emitted records in its look-back window while the writer rewrote them)", "args": mlr_args(s7),
                        "input": dkvp(recs, ";", ":").decode(), "observed": racy[0], "difference": racy[1], "spec": s7, "expected": "x_2_0 = 1, 1.5, 2"})
+
+
+def probe_variance(ctx):
+    """var/stddev/meaneb of ints large next to their spread"""
+    # 8. exact integer sums (regression of fix: 2ce1d3b8f): stats1, merge-fields and the DSL functions share the finalizer
+    recs = [[("x", "1700000001")], [("x", "1700000004")], [("x", "1700000002")]]
+    s8 = {"verb": "stats1", "accs": ["var", "stddev", "meaneb", "mean"], "fs": ["x"], "gs": [], "interp": False}
+    m8 = {"verb": "merge-fields", "mode": "f", "accs": ["var", "meaneb"], "k": False, "interp": False, "o": "out", "names": ["a", "b", "c"]}
+    for sp, rr in ((s8, recs), (m8, [[("a", "1700000001"), ("b", "1700000004"), ("c", "1700000002")]])):
+        cls, rows, err = run_mlr(ctx, mlr_args(sp), rr)
+        ctx.count(("probe", "var-exact-int-sums", sp["verb"]))
+        d = oracle(sp, rr, rows) if cls == "ok" else {"what": cls}
+        ctx.cov["probes"]["var of three timestamp-scale ints: " + sp["verb"]] = "ok" if d is None else str(d)[:100]
+        if d is not None:
+            ctx.violation({"regression_of": "fix 2ce1d3b8f (var/stddev/meaneb of ints: cancellation in the float formula although the integer sums are exact)", "args": mlr_args(sp),
+                           "input": dkvp(rr, ";", ":").decode(), "observed": rows if cls == "ok" else err, "difference": d, "spec": sp, "expected": "var = 7/3 = 2.3333333333333335"})
+    st, out, err = mlr_run(ctx, ["-n", "put", "end{print variance([1700000001,1700000004,1700000002]); print stddev({\"a\":100000001,\"b\":100000004,\"c\":100000002,\"d\":100000007})}"], b"", timeout=300)
+    got = out.decode("utf-8", "replace").split()
+    ctx.count(("probe", "var-exact-int-sums", "dsl"))
+    ok8 = classify_run(st, err) == "ok" and len(got) == 2 and matches(("flt", Fraction(7, 3)), got[0]) and matches(("sqrt", Fraction(7)), got[1])
+    ctx.cov["probes"]["DSL variance/stddev of ints large next to their spread"] = got
+    if not ok8:
+        ctx.violation({"regression_of": "fix 2ce1d3b8f (DSL variance/stddev of ints)", "input": "variance([1700000001,1700000004,1700000002]); stddev({a:100000001,b:100000004,c:100000002,d:100000007})",
+                       "observed": got or err.decode("utf-8", "replace")[:300], "expected": "2.3333333333333335 and 2.6457513110645907"})
+    # 9. finding variance-cancellation-float-sums: the sum of squares leaves int64, the float sums cancel
+    recs = [[("x", "1700000001")], [("x", "1700000004")], [("x", "1700000002")], [("x", "1700000007")]]
+    s9 = {"verb": "stats1", "accs": ["var"], "fs": ["x"], "gs": [], "interp": False}
+    cls, rows, err = run_mlr(ctx, mlr_args(s9), recs)
+    ctx.count(("probe", "var-float-sums"))
+    d = oracle(s9, recs, rows) if cls == "ok" else {"what": cls}
+    ctx.cov["probes"]["var of four timestamp-scale ints (float sums)"] = "ok" if d is None else str(d)[:100]
+    if d is not None:
+        ctx.violation({"class": "variance-cancellation-float-sums", "args": mlr_args(s9), "input": dkvp(recs, ";", ":").decode(), "observed": rows if cls == "ok" else err,
+                       "difference": d, "spec": s9, "expected": "x_var=7 (sum (x-mean)^2/(n-1) = 21/3)"})
 
 
 # ------------------------------------------------------------------ witness classes of genuine defects
@@ -1670,6 +1722,7 @@ def run(ctx):
         check_dsl(ctx, terms, meta, oracle_bad)
         check_pctl_grid(ctx, terms, meta, oracle_bad)
         probe_known(ctx)
+        probe_variance(ctx)
         from checks.c10_dsl import check_dsl_ext      # DSL statistics functions on strings/maps/empties/options (coq/C10/ModelDsl.v)
         check_dsl_ext(ctx)
     ctx.cov["oracle"] = {"cases": len(meta), "disagreements": len(oracle_bad)}
@@ -1715,7 +1768,7 @@ def run(ctx):
 def replay(ctx, path):
     obj = json.loads(Path(path).read_text())
     s = obj.get("spec")
-    if obj.get("regression_of") or (s and s.get("verb") == "dsl"):
+    if obj.get("regression_of") or obj.get("class") == "variance-cancellation-float-sums" or (s and s.get("verb") == "dsl"):
         ctx.cov["probes"] = {}
         if s and s.get("verb") == "dsl":
             bad = []
@@ -1727,6 +1780,7 @@ def replay(ctx, path):
                 ctx.violation(dict(obj, replayed=True, observed=err))
             return
         probe_known(ctx)
+        probe_variance(ctx)
         return
     if not s:
         print("replay: no spec stored")
